@@ -31,6 +31,25 @@ class Service(object):
         self.calls = []
         self.reply = (200, 'empty')
 
+    def make_request(self, pool, conn, method, url, body=None, headers=None, preload_content=True, decode_content=True, **kw):
+        """Stands in for urllib3's HTTPConnectionPool._make_request - one call per HTTP exchange actually attempted, below
+        requests' adapter and urllib3's retry logic, so sessions, mounted adapters and retry policies are all real; error
+        replies of the rate-limiting kind carry a Retry-After header every other time."""
+        import io
+        import urllib3
+        if isinstance(body, bytes):
+            body = body.decode('utf-8', 'replace')
+        port = '' if pool.port in (None, 80, 443) else ':%d' % pool.port
+        self.calls.append({'url': '%s://%s%s%s' % (pool.scheme, pool.host, port, url), 'data': body, 'headers': dict(headers or {}), 'method': method})
+        self.exchanges = getattr(self, 'exchanges', 0) + 1
+        hdrs = {'Content-Type': 'application/json'}
+        if self.reply[0] in (413, 429, 503) and self.exchanges % 2:
+            hdrs['Retry-After'] = '1'
+        content = b'' if self.reply[0] == 204 else BODIES[self.reply[1]].encode('utf-8')       # (HTTP: a 204 reply has no content)
+        return urllib3.response.HTTPResponse(body=io.BytesIO(content), headers=hdrs, status=self.reply[0],
+                                             version=11, version_string='HTTP/1.1', reason='stub', preload_content=preload_content,
+                                             decode_content=decode_content, request_method=method, request_url=url)
+
     def send(self, adapter, request, **kw):
         """Stands in for HTTPAdapter.send: whatever way the library calls requests (post, request, a Session), the prepared
         request ends up here; the reply is a real requests.Response."""
@@ -178,8 +197,14 @@ def run(chk):
     if len(rows) < 6000:
         raise core.MachineryError('only %d transitions' % len(rows))
     svc = Service(requests)
-    old_send = requests.adapters.HTTPAdapter.send
-    requests.adapters.HTTPAdapter.send = lambda adapter, request, **kw: svc.send(adapter, request, **kw)
+    import types
+    import time as _time
+    import urllib3
+    import urllib3.util.retry as _retry
+    old_send = urllib3.connectionpool.HTTPConnectionPool._make_request
+    urllib3.connectionpool.HTTPConnectionPool._make_request = lambda pool, conn, method, url, **kw: svc.make_request(pool, conn, method, url, **kw)
+    old_time = _retry.time
+    _retry.time = types.SimpleNamespace(sleep=lambda s_: None, time=_time.time, mktime=_time.mktime)     # a retry policy does not make the check wait
     try:
         for i, row in enumerate(rows):
             tok = make_token(auth, row['tok'])
@@ -240,12 +265,13 @@ def run(chk):
             chk.traces += 1
             chk.case(('seq', j))
     finally:
-        requests.adapters.HTTPAdapter.send = old_send
+        urllib3.connectionpool.HTTPConnectionPool._make_request = old_send
+        _retry.time = old_time
     chk.extra['transitions'] = len(rows)
     chk.extra['unconstrained_transitions'] = sum(1 for row in rows if row['out'] == 'any')
-    chk.assumptions += ['the service is a stand-in inside the check process: the transport adapter of requests (HTTPAdapter.send) is replaced by a '
-                        'recorder that returns real requests.Response objects (status, body), so request construction and preparation and '
-                        'response parsing are real, whichever requests API the library uses',
+    chk.assumptions += ['the service is a stand-in inside the check process: urllib3\'s HTTPConnectionPool._make_request (one call per HTTP exchange attempted) is replaced by a '
+                        'recorder that returns real urllib3 responses (status, headers, body), so request construction, sessions, adapters, retry '
+                        'policies and response parsing are real, whichever requests API the library uses',
                         'join payload: selectedProfile must carry the stored profile id (string or {id, name} object)',
                         'combinations outside the property (200 with a non-result body, 204 to authenticate/refresh/sign_out) are recorded, not judged']
     return chk.finish(
